@@ -18,6 +18,11 @@ def programs(ctx):
     some = ["Sub", "SubAssign", "Shl", "ShlAssign", "Add", "AddAssign", "Neg"] if ctx.quick else ALL
     for j, (mode, kind) in enumerate([("entry", "tuple"), ("shared", "named"), ("field", "tuple")] + ([] if ctx.quick else [("entry", "named"), ("shared", "tuple"), ("field", "named")])):
         out.append(fam2.c08_prog("p_%04d" % (len(shapes) + j), kind, 2, some, bounds=mode))
+    for j, (rp, kind) in enumerate([("packed", "tuple"), ("C, packed", "named")] + ([] if ctx.quick else [("packed(1)", "named"), ("C", "tuple"), ("transparent", "tuple1")])):
+        if kind == "tuple1":
+            out.append(fam2.c08_prog("p_r%02d" % j, "tuple", 1, some, repr=rp))
+        else:
+            out.append(fam2.c08_prog("p_r%02d" % j, kind, 2, some, repr=rp))
     # `Self` in bound(..) predicates and in field types: the impls for `&X` must still be about X
     text = ("pub trait Tr {}\npub struct Tag<W>(pub core::marker::PhantomData<W>, pub L);\n"
             "impl<W> core::ops::Neg for Tag<W> { type Output = Tag<W>; fn neg(self) -> Tag<W> { Tag(self.0, -self.1) } }\n"
@@ -41,7 +46,7 @@ def canary():
 
 def run(ctx):
     progs = programs(ctx)
-    st = E.run_family(ctx, "C08", progs, canary(), per=6, extra_support=fam2.c08_support())
+    st = E.run_family(ctx, "C08", progs, canary(), missing_impl_re=r"^cannot (add|subtract|multiply|divide|calculate|apply|shift|negate)|^no implementation for|^binary (assignment )?operation|is not satisfied$|^cannot apply unary operator", per=6, extra_support=fam2.c08_support())
     ctx.assumptions += [
         "Kani 0.68 / CBMC 6.11, proof_for_contract on one wrapper per (operator trait, reference form); loop-free, all operand values => complete per program; every one of the 22 operator traits and all 64 forms is covered on each shape",
         "field type L: each operator is a distinct non-commutative function fop(k, lhs, rhs) and carries an application counter (result.n == 1 <=> the field operator ran exactly once); borrowed operands cannot change (shared references, no interior mutability)",
